@@ -55,7 +55,7 @@ def search(ctx):
     for _ in range(ctx.n(800, 20000)):
         s, fam = gen.segment(rng, fam=rng.choice(['int', 'float', 'grid', 'collinear', 'big']))
         t = gen.tvalue(rng)
-        k = rng.random()
+        k = rng.random(); hist = None
         if k < 0.08:
             s = s.scaled(10.0 ** -rng.randint(6, 12)); fam = 'tiny-scaled'
         elif k < 0.16 and len(s.points) == 4:
@@ -71,6 +71,16 @@ def search(ctx):
             ps = [P(off, -off)]
             for j in range(1, n_): ps.append(P(ps[-1].x + leg * rng.choice([1, 2, 3]), ps[-1].y + leg * rng.choice([-1, 0, 1, 2])))
             s = gen.KINDS[n_](*ps); fam = 'far-short-legs'
+        elif k < 0.30 and len(s.points) > 2:
+            # a Line with a HISTORY: a piece of the flattened curve (it carries a back-pointer to the curve; it is still just a line)
+            try:
+                L = s.length; dd = L / rng.randint(2, 6)
+                pieces = s.flatten(dd) if 1 < L < 2000 else []          # (the sampler's look-up table has one entry per unit of length)
+            except Exception: pieces = []
+            if len(pieces) >= 2:
+                j_ = rng.randrange(len(pieces)); hist = {'parent': gen.seg_json(s), 'flatten': dd, 'piece': j_}; s = pieces[j_]; fam = 'flattened-piece'
+        elif k < 0.34 and len(s.points) > 2:
+            ts_ = rng.uniform(0.2, 0.8); j_ = rng.randrange(2); hist = {'parent': gen.seg_json(s), 'splitAtTime': ts_, 'piece': j_}; s = s.splitAtTime(ts_)[j_]; fam = 'split-piece'
         f = check(s, t)
         if f == [] and rng.random() < 0.25:
             f = gen.freshness(rng, s, {'tangentAtTime': lambda x: x.tangentAtTime(t), 'normalAtTime': lambda x: x.normalAtTime(t), 'curvatureAtTime': lambda x: x.curvatureAtTime(t)})
@@ -78,13 +88,18 @@ def search(ctx):
         ev += 1; dist[f'{type(s).__name__}/{fam}'] = dist.get(f'{type(s).__name__}/{fam}', 0) + 1
         seen.add((gen.seg_key(s), t))
         if len(samples) < 3: samples.append({'segment': gen.seg_json(s), 't': t})
-        if f: fails.append({'class': 'C18-formula', 'what': f[0], 'input': {'segment': gen.seg_json(s), 't': t}, 'observed': f, 'expected': 'C18 clauses at 1e-9'})
+        if f: fails.append({'class': 'C18-formula', 'what': f[0], 'input': dict({'segment': gen.seg_json(s), 't': t}, **({'history': hist} if hist else {})), 'observed': f, 'expected': 'C18 clauses at 1e-9'})
     return {'evaluations': ev, 'distinct_nontrivial': len(seen), 'failures': fails, 'distribution': dist, 'samples': samples}
 
 
 def replay(ctx, payload):
     i = payload['input']
-    f = check(gen.seg_from_json(i['segment']), i['t'])
+    seg = gen.seg_from_json(i['segment'])
+    h = i.get('history')
+    if h:        # the segment is the product of an operation on a parent curve: rebuild it the same way (it may carry state a freshly built one has not)
+        par = gen.seg_from_json(h['parent'])
+        seg = par.flatten(h['flatten'])[h['piece']] if 'flatten' in h else par.splitAtTime(h['splitAtTime'])[h['piece']]
+    f = check(seg, i['t'])
     return {'fails': bool(f), 'observed': f}
 
 
